@@ -8,7 +8,7 @@ sys.path.insert(0, HERE)
 import engine
 
 
-def run_sessions(sessions, profile='debug'):
+def run_sessions(sessions, profile='debug', shared=False):
     """sessions: list of str (forms separated by ';;').  returns list of outcome strings"""
     d = engine.make_scratch('replay')
     try:
@@ -25,7 +25,9 @@ def run_sessions(sessions, profile='debug'):
         if p.returncode != 0:
             raise engine.Undecided('replay driver build failed:\n' + p.stdout[-3000:])
         exe = os.path.join(engine.BUILD, 'replay-target', profile, 'examples', 'verif_replay')
-        p = subprocess.run([exe], input='\n'.join(s.replace('\n', ' ') for s in sessions) + '\n',
+        if shared:
+            env['VERIF_REPLAY_SHARED'] = '1'
+        p = subprocess.run([exe], env=env, input='\n'.join(s.replace('\n', ' ') for s in sessions) + '\n',
                            stdout=subprocess.PIPE, stderr=subprocess.PIPE, text=True, timeout=600)
         out = {}
         for line in p.stdout.splitlines():
